@@ -629,4 +629,6 @@ KILLS = [
     "formatter.py sign reservation 'digits_before -= 1' removed -> using.sci-overflow",
     'numbers.py _group_thousands every 4 -> using.commas',
     'numbers.py to_str_fixed n_work one digit short -> using.shape / using.digits',
+    'fix f381997f reverse-applied -> using.sci.carry-to-pow10 (generated cases)',
+    'fix 81d93a78 reverse-applied -> using.fixed.round-below-last-decimal (generated cases)',
 ]
